@@ -31,7 +31,9 @@ def run(ctx, db, tier):
 def value_before_notify(ctx, db):
     rid = ctx.rule('C15.value-before-notify', 'ORDER+COUNT', 'every collector::operator() overload: on every path the current-value pointer is written (to the stored copy or to the caller\'s lvalue) '
                    'before notify_awaiters(), which is called exactly once and whose suspend point is returned; ~state writes null to the pointer and then notifies exactly once', floor=3)
-    T = htracer(db)
+    # helpers of the shared state other than the anchor notify_awaiters() are expanded (state::broadcast(ptr) { _cur_val = ptr; return notify_awaiters(); })
+    T = htracer(db, extra=lambda c, e, callee: norm(callee['nname']).startswith('cocls::signal::state::') and not callee.get('lambda') and
+                norm(callee['nname']).split('::')[-1] not in ('notify_awaiters', 'state', '~state'))
     fns = db.need('cocls::signal::collector::operator()')
     seen = {}
     for f in fns:
@@ -50,16 +52,22 @@ def value_before_notify(ctx, db):
                 bad = bad or ('the current-value pointer is changed after the listeners were released', tr)
             else:
                 rhs = tr[w[-1]].get('rhs') or ''
+                if not rhs.startswith('&('):
+                    rhs = origin_in_trace(tr, w[-1], rhs)[0] or rhs        # the pointer came through a helper / local
                 lval = bool(re.fullmatch(r'&\(param:\w+\)', rhs)) and not em
                 if not lval:
                     if not em or em[-1] > w[-1]:
                         bad = bad or ('the value is not stored before the pointer is aimed at the storage', tr)
                     elif '_value_storage' not in rhs:
-                        bad = bad or ('the pointer is not aimed at the stored copy', tr)
+                        # &storage.emplace(...) / auto &ref = storage.emplace(...); ... = &ref: emplace returns a reference to the stored copy
+                        inner = rhs[2:-1] if rhs.startswith('&(') and rhs.endswith(')') else rhs
+                        o = origin_in_trace(tr, w[-1], inner)[0] or inner
+                        if not ('_value_storage' in o or (re.fullmatch(r'call\(std::optional::emplace\)', o) and em)):
+                            bad = bad or ('the pointer is not aimed at the stored copy', tr)
                 ret = [it for it in tr if it.k == 'return']
                 if not ret or 'notify_awaiters' not in (ret[-1].get('path') or ''):
                     o = value_origin(f, f.ev(ret[-1].get('ret_ev'))) if ret and ret[-1].get('ret_ev') is not None and f.ev(ret[-1].get('ret_ev')) is not None else None
-                    if (o is None or norm(o.get('callee') or '') != 'cocls::signal::state::notify_awaiters') and 'notify_awaiters' not in (origin_in_trace(tr, len(tr), ret_expr(tr))[0] or ''):
+                    if (o is None or norm(o.get('callee') or '') != 'cocls::signal::state::notify_awaiters') and not re.search(r'notify_awaiters|cocls::awaiter::resume_chain', origin_in_trace(tr, len(tr), ret_expr(tr))[0] or ''):
                         bad = bad or ('the suspend point of the released listeners is not returned to the caller', tr)
         k = f['key']
         if k in seen and not bad:
@@ -70,10 +78,10 @@ def value_before_notify(ctx, db):
         trs = [t for t in trs if live(t)]
         bad = None
         for tr in trs:
-            w = all_indices(tr, lambda ev: ev.k == 'write' and field_of(ev) == CUR and ev.get('const') == 0)
-            # released through notify_awaiters() or directly by detaching the chain (awaiter::resume_chain(_chain))
-            n = all_indices(tr, lambda ev: ev.k == 'call' and ev.get('depth', 0) == 0 and (norm(ev.get('callee')) == 'cocls::signal::state::notify_awaiters' or
-                                                                                          (norm(ev.get('callee')) == 'cocls::awaiter::resume_chain' and any(norm(a.get('field') or '') == 'cocls::signal::state::_chain' for a in ev.get('args', [])))))
+            w = all_indices(tr, lambda ev: ev.k == 'write' and field_of(ev) == CUR and (ev.get('const') == 0 or (ev.get('rhs') or '') in NULLS))
+            # released through notify_awaiters() (counted by the detach inside it when it was expanded) or directly by detaching the chain (awaiter::resume_chain(_chain))
+            n = all_indices(tr, lambda ev: ev.k == 'call' and ((norm(ev.get('callee')) == 'cocls::signal::state::notify_awaiters' and not ev.get('expanded')) or
+                                                                (norm(ev.get('callee')) == 'cocls::awaiter::resume_chain' and any(norm(a.get('field') or '') == 'cocls::signal::state::_chain' for a in ev.get('args', [])))))
             if len(n) != 1 or not w or w[0] > n[0]:
                 bad = tr
         ctx.ob(rid, f, f['key'], bad is None, '~state: pointer cleared, then every waiting listener released once', desc='~state does not clear the value and then release the chain once')
@@ -118,17 +126,27 @@ def alive_or_fail(ctx, db):
         bad = None; nthrow = nret = 0
         for tr in trs:
             thr = [it for it in tr if it.k == 'throw']
-            vals = set(); nullvars = set()
+            # what each pointer local holds at each point of the path: the current-value pointer, null, or something else
+            holds = {}; infeasible = False; got = False
             for i_, it in enumerate(tr):
+                src = None
                 if it.k == 'decl' and it.get('init'):
-                    ri = resolve_select(it['init'], tr[:i_]) or ''
-                    if ri.endswith('_cur_val'):
-                        vals.add(it.get('var'))
-                    elif ri in NULLS:
-                        nullvars.add(it.get('var'))
-            if any(it.k == 'branch' and null_test(tr, i) and null_test(tr, i)[0] in nullvars and null_test(tr, i)[1] for i, it in enumerate(tr)):
-                continue          # infeasible: a local initialised to null on this path tested non-null
-            got = any(it.k == 'branch' and null_test(tr, i) and ('_cur_val' in (null_test(tr, i)[0] or '') or null_test(tr, i)[0] in vals) and null_test(tr, i)[1] for i, it in enumerate(tr))
+                    src = (it.get('var'), resolve_select(it['init'], tr[:i_]) or '')
+                elif it.k == 'write' and re.fullmatch(r'local:\w+(#\d+)?', it.get('path') or '') and (it.get('op') or '=') == '=':
+                    src = (it['path'], resolve_select(it.get('rhs') or '', tr[:i_]) or ('nullptr' if it.get('const') == 0 else ''))
+                if src:
+                    o = origin_in_trace(tr, i_, src[1])[0] or src[1]
+                    holds[src[0]] = 'cur' if o.endswith('_cur_val') else ('null' if (o in NULLS or (it.k == 'write' and it.get('const') == 0) or (it.k == 'decl' and it.get('const') == 0)) else (holds.get(o) if o in holds else 'other'))
+                elif it.k == 'branch':
+                    nt = null_test(tr, i_)
+                    if nt:
+                        h = holds.get(nt[0])
+                        if h == 'null' and nt[1]:
+                            infeasible = True      # a local that is null on this path tested non-null
+                        if nt[1] and ('_cur_val' in (nt[0] or '') or h == 'cur'):
+                            got = True
+            if infeasible:
+                continue
             if live(tr):
                 nret += 1
                 if not got:
